@@ -28,7 +28,7 @@ AsObs(o) == [res |-> o.res, rflag |-> o.rflag, assertions |-> o.assertions,
              info |-> [res |-> o.res, iflag |-> o.rflag,
                        first |-> IF o.assertions = << >> THEN "none" ELSE o.assertions[1].c,
                        n |-> Len(o.assertions)],
-             pre |-> [ok |-> TRUE, agree |-> TRUE]]
+             pre |-> [ok |-> TRUE, agree |-> TRUE], marked_flagged |-> FALSE]
 
 TypeOK == /\ w.pc \in {"Start", "SkipDecode", "RootVerify", "SignedDecrypt", "SignedDecode",
                         "UnsignedDecrypt", "UnsignedLoop", "Validate", "done"}
